@@ -35,8 +35,11 @@ RULE = ("(1) docstring texts: all sequences of length <= N over a %d-token alpha
         "docstring / function / class in 3 styles x indent levels 0..2 and parsed back; (3) generated modules x doctrans "
         "applied 1..3 times; non-trivial = non-empty input" % len(docgen.TOKEN_ALPHABET))
 REQUIRED_MONITORS = ("steps.docstring.parse", "steps.docstring.emit", "steps.function.emit", "steps.doctrans",
-                     "steps.cst_parse")
+                     "steps.cst_parse", "growth.compared")
 ASSUMPTIONS = [
+    "growth is bounded as steps(2k) <= 2.5 * steps(k) * (chars(2k)/chars(k))^2 on four input families (nested definitions, "
+    "many methods, many parameters, docstring with many parameters); quadratic work passes, work that doubles per level "
+    "or per entry is cut",
     "termination is decided as bounded progress: budget B(n) = 100000 + 6000*n line events for docstring/format "
     "parsers and emitters, 200000 + 40*n + 16*n^2 for the (legitimately quadratic) CST scan and doctrans, n = input "
     "characters; the worst observed ratio steps/budget of each run is reported so drift is visible",
@@ -76,7 +79,59 @@ def EXHAUSTIVE(ctx):
 def streams(ctx):
     return [("tokens", (total_tok(ctx) + BLOCK - 1) // BLOCK), ("tokens_random", ctx.scale(1500, 40000)),
             ("hostile_ir", ctx.scale(250, 5000)), ("doctrans", ctx.scale(60, 1500)), ("cst", ctx.scale(40, 600)),
-            ("alternatives", ctx.scale(600, 12000))]
+            ("alternatives", ctx.scale(600, 12000)), ("scaling", ctx.scale(24, 240))]
+
+
+# --- growth monitor -----------------------------------------------------------------------------------------------
+# The absolute budgets above are sized for legitimately quadratic work on arbitrary input and are far too generous to
+# notice work that doubles with every nesting level or every entry. The `scaling` stream therefore measures the same
+# call on two inputs of one family, size k and 2k, in logical time, and bounds the growth: steps(2k) must stay below
+# GROWTH * steps(k) * (n2/n1)^2 (n = characters) - the larger run is *cut* at that budget.
+GROWTH = 2.5
+
+
+def fam_nested(k):
+    out = []
+    for d in range(k):
+        pre = "    " * d
+        out += ["%sdef level_%d(a_%d, b_%d=%d):" % (pre, d, d, d, d), '%s    """' % pre, "%s    Level %d of the chain" % (pre, d),
+                "", "%s    :param a_%d: first thing" % (pre, d), "%s    :type a_%d: ```int```" % (pre, d), "",
+                "%s    :param b_%d: second thing" % (pre, d), "%s    :type b_%d: ```int```" % (pre, d), "",
+                "%s    :return: the sum" % pre, "%s    :rtype: ```int```" % pre, '%s    """' % pre,
+                "%s    total_%d: int = a_%d + b_%d" % (pre, d, d, d)]
+    for d in reversed(range(k)):
+        out.append("%s    return total_%d" % ("    " * d, d))
+    return "\n".join(out) + "\n"
+
+
+def fam_wide_class(k):
+    out = ["class Wide(object):", '    """', "    A class with many methods", '    """', ""]
+    for i in range(k):
+        out += ["    def method_%d(self, a, b=%d):" % (i, i), '        """', "        Method %d" % i, "",
+                "        :param a: first thing", "        :type a: ```int```", "", "        :param b: second thing",
+                "        :type b: ```int```", "", "        :return: the sum", "        :rtype: ```int```", '        """',
+                "        return a + b", ""]
+    return "\n".join(out)
+
+
+def fam_many_params(k):
+    names = ["p_%d" % i for i in range(k)]
+    out = ["def many(%s):" % ", ".join("%s=%d" % (n, i) for i, n in enumerate(names)), '    """', "    Many parameters", ""]
+    for n in names:
+        out += ["    :param %s: the %s thing" % (n, n), "    :type %s: ```int```" % n, ""]
+    out += ["    :return: nothing", "    :rtype: ```None```", '    """', "    return None", ""]
+    return "\n".join(out)
+
+
+def fam_docstring(k, style):
+    params = [("p_%d" % i, "int", "the thing number %d" % i, i) for i in range(k)]
+    import random
+    text, _ = docgen.compose(random.Random(k), style, params=params, returns=("int", "the total"), with_footer=False, paragraphs=2)
+    return text
+
+
+FAMILIES = {"nested-definitions": (fam_nested, (5, 6, 7)), "many-methods": (fam_wide_class, (5, 7, 9)),
+            "many-parameters": (fam_many_params, (8, 10, 14))}
 
 
 def setup_shard(ctx, P):
@@ -228,6 +283,49 @@ def run_case(ctx, P, stream, idx):
                     break
         finally:
             shutil.rmtree(d, ignore_errors=True)
+    elif stream == "scaling":
+        fam = sorted(FAMILIES)[idx % (len(FAMILIES) + 1)] if idx % (len(FAMILIES) + 1) < len(FAMILIES) else "docstring-parameters"
+        style, ta = STYLES[(idx // 4) % 3], (idx // 12) % 2 == 0
+        if fam == "docstring-parameters":
+            k = (10, 16, 24)[(idx // 4) % 3]
+            texts = [fam_docstring(k, style), fam_docstring(2 * k, style)]
+            calls = [lambda t=t: cdd.docstring.parse.docstring(t) for t in texts]
+        else:
+            gen, ks = FAMILIES[fam]
+            k = ks[(idx // 4) % len(ks)]
+            texts = [gen(k), gen(2 * k)]
+            d = tempfile.mkdtemp(prefix="vcdd-c11-")
+            paths = []
+            for j, t in enumerate(texts):
+                paths.append(os.path.join(d, "m%d.py" % j))
+                with open(paths[-1], "w") as f:
+                    f.write(t)
+            calls = [lambda p=p: cdd.compound.doctrans.doctrans(filename=p, docstring_format=style, type_annotations=ta,
+                                                                no_word_wrap=None) for p in paths]
+        P.case({"family": fam, "k": k, "style": style, "ta": ta}, klass="scaling/" + fam,
+               sample={"family": fam, "k": k, "sizes": [len(t) for t in texts], "style": style})
+        try:
+            n1, n2 = len(texts[0]), len(texts[1])
+            o1, _, steps1 = MON.run(calls[0], budget_quadratic(n1))
+            P.monitor("growth.small-run")
+            if o1 in ("returned", "raised") and steps1 > 0:
+                allowed = int(GROWTH * steps1 * (n2 / float(n1)) ** 2) + 50000
+                o2, _, steps2 = MON.run(calls[1], allowed)
+                P.monitor("growth.compared")
+                g = steps2 / float(steps1)
+                P.notes["worst_growth." + fam] = max(P.notes.get("worst_growth." + fam, 0.0), round(g, 2))
+                if o2 == "budget":
+                    P.deviation("superquadratic-growth.%s" % fam,
+                                "%s: size k=%d takes %d line events (%d chars), size 2k was cut at %d (%d chars): more than "
+                                "%.1f x the quadratic allowance; hottest lines: %s" % (fam, k, steps1, n1, allowed, n2, GROWTH,
+                                                                                      MON.hottest(3)),
+                                dict(w, family=fam, k=k, style=style, type_annotations=ta, steps_small=steps1, allowed=allowed,
+                                     input_small=texts[0][:1500], hottest=MON.hottest(5)))
+                elif o2 == "watchdog":
+                    P.error("wall-clock watchdog fired in scaling/%s (inconclusive)" % fam)
+        finally:
+            if fam != "docstring-parameters":
+                shutil.rmtree(d, ignore_errors=True)
     elif stream == "cst":
         src = progen.gen_module(r, prelude=False, n_items=r.randint(1, 2))[:3000]
         if r.random() < 0.5:
